@@ -343,7 +343,9 @@ class ClientWebSocketResponse(Generic[_DecodeText]):
             self._response.close()
             return True
 
-        if self._close_code:
+        if self._close_code is not None:
+            # The peer's CLOSE was already received - with code 0 when it
+            # carried no payload.
             self._response.close()
             return True
 
